@@ -66,8 +66,16 @@ claim('C04', 'exploration', TECH + ': history check of seeded control schedules 
       INV_NOTE + ' The reference timeline encodes the semantics the statement spells out (and EPANET 2.2 implements); rule timesteps divide the hydraulic timestep.',
       'DESIGN.md section 4 (C04)')
 
+claim('C05', 'exploration', TECH + ': invariant on every reported row of seeded runs whose tank levels and pressures are driven through control thresholds, plus a history check of partial steps, with restarts between crossing and switching',
+      'Worlds with tanks, pumps, CV pipes, valves and 1-6 simple conditional controls (tank level/head and junction pressure, above/below, hysteresis pairs, two thresholds '
+      'crossed in one step, thresholds at the current level, conflicting controls with different priorities) run under the simulator with pause/persist/restart, rescued solver '
+      'faults, small trial limits and evaluator-order perturbation. On every reported row each control whose condition holds beyond a 1e-6 guard band must see its commanded '
+      'status/setting on its target, with exactly the exceptions of the statement; over consecutive accepted steps a tank-level control that switched its target must not have '
+      'overshot its threshold by more than two seconds of tank flow.',
+      INV_NOTE, 'DESIGN.md section 4 (C05)')
+
 _PENDING = 'check not built yet in this session (planned, see DESIGN.md section 11); not claimed until it runs clean'
-for _p in ['C03', 'C05', 'C12', 'C13', 'C14', 'C15']:
+for _p in ['C03', 'C12', 'C13', 'C14', 'C15']:
     NOT_APPLICABLE[_p] = _PENDING
 NOT_APPLICABLE['C17'] = 'pure total functions of (value, unit, parameter): no state, clock, I/O or failure mode for a schedule or fault to act on; deterministic simulation has nothing to vary (DESIGN.md section 7)'
 NOT_APPLICABLE['C18'] = 'pure function of (graph, valve layer) returning a labelling: nothing evolves, fails or persists (DESIGN.md section 7)'
